@@ -1904,6 +1904,26 @@ func c12GenReqs(g *c12Gen, cfg genCfg, playBlock int) ([]c12Req, string) {
 	case f < 86:
 		fam = "selectors"
 		first := g.selector(-1)
+		if first != nil && rapid.IntRange(0, 2).Draw(rt, "giveback") == 0 {
+			// the first selection wants only confirmed outputs and more than the address owns: it scans everything,
+			// skips what is unconfirmed, gives its locks back and fails - while two plain selections of the same
+			// address run
+			fam = "selectors-exclude-gives-back"
+			us := spendable(g.s, hx.Ring[first.Addr].Address, g.h, true)
+			sum := big.NewInt(1)
+			for _, u := range us {
+				sum.Add(sum, u.Amount)
+			}
+			first.BySize, first.Exclude, first.Need = false, true, sum.String()
+			add(first)
+			for i := 0; i < 2; i++ {
+				if r := g.selector(first.Addr); r != nil {
+					r.BySize, r.Exclude, r.Need = false, false, "1"
+					add(r)
+				}
+			}
+			break
+		}
 		add(first)
 		if first != nil {
 			add(g.selector(first.Addr))
